@@ -104,7 +104,7 @@ impl Run {
             eprintln!("replay: re-running {} tier={:?} seed={} for case key {:?}", id, tier, seed, replay_key);
         }
         let known = load_known(id);
-        super::quiet_panics();
+        super::quiet_panics_for(Box::leak(id.to_string().into_boxed_str()));
         Run {
             id: id.to_string(),
             tier,
